@@ -1058,6 +1058,35 @@ class TeX(object):
             text = ''.join(content)
         return type(text)
 
+    def castKey(self, tokens, **kwargs):
+        """
+        Join the tokens of a label or reference key into a string
+
+        Inside a formula `_` and `^` are commands; in a key they are
+        the characters that were written (\\label{eq:first_law}).
+
+        Required Arguments:
+        tokens -- list of tokens to cast
+
+        Returns:
+        string
+
+        See Also:
+        self.castLabel()
+        self.castRef()
+
+        """
+        text = self.normalize(tokens)
+        if isinstance(text, str):
+            return str(text)
+        parts = []
+        for item in text:
+            if getattr(item, 'nodeName', None) in ('active::_', 'active::^'):
+                parts.append(item.source)
+            else:
+                parts.append(item.textContent)
+        return ''.join(parts)
+
     def castLabel(self, tokens, **kwargs):
         """
         Join the tokens into a string and set a label in the context
@@ -1074,7 +1103,7 @@ class TeX(object):
         self.castRef()
 
         """
-        label = self.castString(tokens, **kwargs)
+        label = self.castKey(tokens, **kwargs)
         self.ownerDocument.context.label(label)
         return label
 
@@ -1094,7 +1123,7 @@ class TeX(object):
         self.castLabel()
 
         """
-        ref = self.castString(tokens, **kwargs)
+        ref = self.castKey(tokens, **kwargs)
         self.ownerDocument.context.ref(kwargs['parentNode'], kwargs['name'], ref)
         return ref
 
